@@ -1945,3 +1945,19 @@ def free_vars(terms):
     else:
       stack.extend(t.children())
   return out
+
+
+def dag_count(terms, cap=10**9):
+  """number of distinct AST nodes reachable from the given z3 terms (stops counting at cap)"""
+  seen = set()
+  stack = [t for t in terms if not isc(t)]
+  while stack:
+    t = stack.pop()
+    i = t.get_id()
+    if i in seen:
+      continue
+    seen.add(i)
+    if len(seen) >= cap:
+      return cap
+    stack.extend(t.children())
+  return len(seen)
